@@ -161,12 +161,20 @@ const NRIA: &str = "nria";
 const UTIA: &str = "transfer/channel-0/utia"; // sink-zone asset, allowed fee asset
 const XTOK: &str = "xtok"; // sequencer-origin asset, not a fee asset
 const UOSMO: &str = "transfer/channel-1/uosmo"; // sink-zone asset via channel-1, not a fee asset
-const ASSETS: [&str; 4] = [NRIA, UTIA, XTOK, UOSMO];
+// arrived (at some earlier time) over a channel whose id has the id of channel-1 as a string
+// prefix: "leading channel" tests must compare whole path segments
+const UATOM: &str = "transfer/channel-10/uatom";
+const ASSETS: [&str; 5] = [NRIA, UTIA, XTOK, UOSMO, UATOM];
 /// every asset name that can come into existence (received foreign assets get the receiving
 /// channel's prefix)
-const ALL_ASSETS: [&str; 6] = [
+const ALL_ASSETS: [&str; 11] = [
     NRIA,
     XTOK,
+    UATOM,
+    "transfer/channel-0/transfer/channel-1001/nria",
+    "transfer/channel-1/transfer/channel-1011/nria",
+    "transfer/channel-0/transfer/channel-1001/xtok",
+    "transfer/channel-1/transfer/channel-1011/xtok",
     "transfer/channel-0/utia",
     "transfer/channel-1/utia",
     "transfer/channel-0/uosmo",
@@ -293,7 +301,7 @@ impl World {
     async fn seed_state(&mut self) {
         let addrs: Vec<[u8; 20]> = ["a0", "a1", "a2", "a3"].iter().map(|n| self.name_addr[*n]).collect();
         let state = self.fixture.state_mut();
-        for a in [UTIA, XTOK, UOSMO] {
+        for a in [UTIA, XTOK, UOSMO, UATOM] {
             for addr in &addrs {
                 state
                     .put_account_balance(addr, &denom(a), 5_000_000_000_000u128)
@@ -311,7 +319,7 @@ impl World {
             .unwrap();
         let state = self.fixture.state_mut();
         state.put_allowed_fee_asset(&denom(UTIA)).unwrap();
-        for a in [UTIA, UOSMO] {
+        for a in [UTIA, UOSMO, UATOM] {
             let Denom::TracePrefixed(t) = denom(a) else { unreachable!() };
             state.put_ibc_asset(t).unwrap();
         }
@@ -1461,7 +1469,64 @@ impl Gen {
         }
     }
 
+    /// Privileged actions whose arguments change nothing ("set it to what it is"), signed by an
+    /// account that does not hold the privilege, where possible right after the real authority
+    /// moved the value the other way: an early-return for no-ops placed before the signer check
+    /// is invisible to value-based negative tests.
+    fn noop_priv_ops(&mut self, ops: &mut Vec<String>) {
+        let fa = self.fee_asset(false);
+        let sudo = self.view.sudo.clone();
+        let ibcsudo = self.view.ibcsudo.clone();
+        let pick_other = |g: &mut Self, holders: &[&str]| -> String {
+            let c: Vec<&&str> = SIGNERS.iter().filter(|x| !holders.contains(*x)).collect();
+            (**g.rng.pick(&c)).to_string()
+        };
+        let nonce = |g: &Self, x: &str| *g.view.nonces.get(x).unwrap_or(&0);
+        match self.rng.below(7) {
+            0..=2 if !self.view.bridges.is_empty() => {
+                let b = self.bridge(false);
+                let w = pick_other(self, &[b.2.as_str()]);
+                let disable_first = SIGNERS.contains(&b.2.as_str()) && self.rng.chance(60);
+                if disable_first {
+                    ops.push(format!("tx {} {} bsudo,{},-,-,{fa},1", b.2, nonce(self, &b.2), b.0));
+                }
+                ops.push(format!("tx {w} {} bsudo,{},-,-,{fa},0", nonce(self, &w), b.0));
+                let u = pick_other(self, &[b.2.as_str(), w.as_str()]);
+                let n = nonce(self, &u);
+                ops.push(format!("tx {u} {n} lock,{},{},7,{fa},3", b.0, b.1));
+            }
+            3 => {
+                let w = pick_other(self, &[sudo.as_str()]);
+                ops.push(format!("tx {w} {} sudo,{sudo}", nonce(self, &w)));
+            }
+            4 => {
+                let w = pick_other(self, &[sudo.as_str()]);
+                ops.push(format!("tx {w} {} ibcsudo,{ibcsudo}", nonce(self, &w)));
+            }
+            5 => {
+                let w = pick_other(self, &[sudo.as_str()]);
+                let a = self.view.feeassets.first().cloned().unwrap_or_else(|| NRIA.to_string());
+                let v = self.view.vals.first().cloned().unwrap_or_else(|| "va".to_string());
+                let act = *self.rng.pick(&["feeasset", "val", "fee"]);
+                let act = match act {
+                    "feeasset" => format!("feeasset,add,{a}"),
+                    "val" => format!("val,{v},10"),
+                    _ => "fee,transfer,2,1002".to_string(),
+                };
+                ops.push(format!("tx {w} {} {act}", nonce(self, &w)));
+            }
+            _ => {
+                let w = pick_other(self, &[ibcsudo.as_str()]);
+                let x = self.view.relayers.first().cloned().unwrap_or_else(|| "i".to_string());
+                ops.push(format!("tx {w} {} relayer,add,{x}", nonce(self, &w)));
+            }
+        }
+    }
+
     fn tx_ops(&mut self, ops: &mut Vec<String>) {
+        if self.rng.chance(4) {
+            return self.noop_priv_ops(ops);
+        }
         let adversarial = self.rng.chance(30);
         let (signer0, group, first) = self.action(None, adversarial);
         let n_actions = if group == 1 || group == 3 {
@@ -1589,7 +1654,11 @@ impl Gen {
                         format!("transfer/channel-{src}/{}", b.1)
                     }
                 } else {
-                    match self.rng.below(7) {
+                    match self.rng.below(9) {
+                        // a foreign voucher whose first hop's channel id merely has the
+                        // counterparty channel's id as a string prefix: NOT ours coming home
+                        7 => format!("transfer/channel-{src}1/nria"),
+                        8 => format!("transfer/channel-{src}1/xtok"),
                         0 | 1 => format!("transfer/channel-{src}/nria"),
                         2 => format!("transfer/channel-{src}/xtok"),
                         3 | 4 => "utia".to_string(),
@@ -1600,7 +1669,7 @@ impl Gen {
                 format!("recv {ch} {src} {denom} {amt} {rcpt} {memo}")
             }
             k => {
-                let denom = *self.rng.pick(&[NRIA, XTOK, UTIA, UOSMO]);
+                let denom = *self.rng.pick(&[NRIA, XTOK, UTIA, UOSMO, UATOM]);
                 let from_rollup = self.rng.chance(30) && !self.view.bridges.is_empty();
                 let (sender, memo, denom) = if from_rollup {
                     (b.0.clone(), "fromrollup", if adversarial { denom.to_string() } else { b.1.clone() })
